@@ -2,6 +2,7 @@
 C01 — lossless write/read round trip of point records.
 -/
 import LasModel.Lemmas.ReadBack
+import LasModel.Lemmas.EncCongr
 
 namespace LasModel.Props.C01
 open LasModel.Bytes LasModel.Header LasModel.Vlr LasModel.FileIO
@@ -102,5 +103,51 @@ theorem C01_pure {F} (o : FOps F) (s s' : WState F) (ops : List WOp) (h : runOps
           · split at hx
             · cases hx
             · injection hx with hx; subst hx; rfl
+
+
+/-- **write after read is idempotent**: writing what was read back (the decoded header, the
+    same records, the EVLRs in their normal form) produces byte for byte the file that was
+    read. -/
+theorem C01_idempotent {F} (o : FOps F) (h : Hdr) (recs : List Rec) (ev : List Vlr)
+    (ok : SessionOK o h [recs] ev) (hevn : ∀ v ∈ ev, factory v = v) :
+    ∃ file, writeFile o h recs (some ev) = .ok file ∧
+      writeFile o (canon (finalHdr o h [recs] ev)) recs (some (ev.map factory)) = .ok file := by
+  obtain ⟨vb, eb, hvb, heb, hvl, hdec, hebdec, hwF, hs⟩ := session_form o h [recs] ev ok
+  have hevmap : ev.map factory = ev := by
+    have : ∀ l : List Vlr, (∀ v ∈ l, factory v = v) → l.map factory = l := by
+      intro l hl
+      induction l with
+      | nil => rfl
+      | cons a l ih => simp [hl a (by simp), ih (fun v hv => hl v (by simp [hv]))]
+    exact this ev hevn
+  refine ⟨_, by rw [writeFile_eq]; exact hs, ?_⟩
+  rw [hevmap, writeFile_eq]
+  -- the read-back header is again in the legal domain, with the same sizes
+  have hw2 : (canon (finalHdr o h [recs] ev)).WF := canon_wf _ hwF
+  have ok2 : SessionOK o (canon (finalHdr o h [recs] ev)) [recs] ev :=
+    { wf := hw2, bits := ok.bits, compat := ok.compat, hsize := ok.hsize, offset := ok.offset, cap := ok.cap,
+      evWF := ok.evWF, evVersion := ok.evVersion, evCount := ok.evCount, fileSize := ok.fileSize }
+  obtain ⟨vb2, eb2, hvb2, heb2, _, _, _, hwF2, hs2⟩ := session_form o (canon (finalHdr o h [recs] ev)) [recs] ev ok2
+  have e1 : vb2 = vb := by
+    have : encodeVlrs false h.vlrs = .ok vb2 := hvb2
+    rw [hvb] at this; injection this with e; exact e.symm
+  subst e1
+  rw [heb] at heb2; injection heb2 with e2; subst e2
+  rw [hs2]
+  have hd12 := ok.wf.doubles.1
+  have h6 : (h.doubles.take 6).length = 6 := by simp [hd12]
+  have hse : SameEnc (finalHdr o (canon (finalHdr o h [recs] ev)) [recs] ev) (finalHdr o h [recs] ev) := by
+    refine { fsid := rfl, ge := rfl, guid := rfl, major := rfl, minor := rfl, sys := rfl, soft := rfl, doy := rfl,
+             year := rfl, fmt := rfl, recLen := rfl, nvlrs := rfl, xh := rfl, xv := rfl, count := rfl, doubles := ?_,
+             wave := ?_, v14 := ?_, legacy := ?_ }
+    · simp only [finalHdr, withStats, canon, finalStats]
+      rw [List.take_left' h6]
+      rfl
+    · intro h3
+      have h3' : h.vMinor ≥ 3 := h3
+      simp [finalHdr, withStats, canon, h3']
+    · intro _; exact ⟨rfl, rfl, rfl⟩
+    · intro _; rfl
+  rw [encForm_congr _ _ hse]
 
 end LasModel.Props.C01
